@@ -2,6 +2,7 @@
 # usage: try_seed.sh <seed-id> <Cxx> [more Cxx...]   -- apply seeded/<id>/patch.diff to /repo, run quick checks, undo.
 sid=$1; shift
 cd /verif
+export VERIF_EVIDENCE_DIR=/verif/.scratch/evidence-seeded
 git -C /repo diff --quiet || { echo "/repo not clean"; exit 9; }
 git -C /repo apply /verif/seeded/$sid/patch.diff || { echo "patch does not apply"; exit 8; }
 trap 'git -C /repo checkout -- . ; echo "[/repo restored]"' EXIT
